@@ -97,7 +97,8 @@ func notNeeded(date string, todo work) bool {
 	}
 	// maybe the report is already in todo.readyfiles
 	for _, f := range todo.readyfiles {
-		if strings.Contains(f, date) {
+		// (only the file name: the directory path may contain date-like text)
+		if strings.Contains(filepath.Base(f), date) {
 			return true
 		}
 	}
